@@ -554,7 +554,21 @@ pub open spec fn ref_parse(s: Seq<char>) -> Option<VSpec> {
     match g_version(s) { Some((v, rest)) => if all_blank(rest) { Some(v) } else { None }, None => None }
 }
 """
-PARSE_CONTRACT = """        ensures
-            r matches Ok(v) ==> (!too_long(text) && (ref_parse(text@) matches Some(s) && version_is(v, s))),  // @Version::parse#accepts-only-whole-versions
-            r is Err ==> (too_long(text) || ref_parse(text@) is None),  // @Version::parse#accepts-every-version"""
+PARSE_OK = "(r matches Ok(v) ==> (!too_long(text) && (ref_parse(text@) matches Some(s) && version_is(v, s))))"
+PARSE_ERR = "(r is Err ==> (too_long(text) || ref_parse(text@) is None))"
+PARSE_CONTRACT = "        ensures\n            " + PARSE_OK + ",  // @Version::parse#accepts-only-whole-versions\n            " + PARSE_ERR + ",  // @Version::parse#accepts-every-version"
+# the same two clauses as a predicate (C12's lemmas talk about "what Version::parse promises")
+PARSE_POST = "pub open spec fn parse_post(text: &str, r: Result<Version, SemverError>) -> bool {\n    &&& " + PARSE_OK + "\n    &&& " + PARSE_ERR + "\n}\n"
 PARSE_ENTRY = "broadcast use winnow_defs, grammar_defs;\n        proof { match g_version(text@) { Some((_, rest)) => { lemma_all_blank(rest); }, None => {} } }\n        "
+
+
+# ====================================================================================================================================
+# Display under contract (A16: the `write!` model of contracts/fmt_spec.rs)
+DISPLAY_CONTRACT = "        ensures r is Ok ==> fmt_out(*final(f)) == fmt_out(*old(f)) + self.disp(),  // @display#text"
+IDENT_FMT_HINT = 'proof { reveal_strlit(""); assert(""@ =~= Seq::<char>::empty()); }'
+DIFF_HINT = 'proof { reveal_strlit("major"); reveal_strlit("minor"); reveal_strlit("patch"); reveal_strlit("premajor"); reveal_strlit("preminor"); reveal_strlit("prepatch"); reveal_strlit("prerelease"); }'
+VERSION_FMT_HINT = 'broadcast use ax_vec_len_fits;\n        let ghost out0 = fmt_out(*f);\n        let ghost core = dec_text(self.major as nat) + ch1(\'.\') + dec_text(self.minor as nat) + ch1(\'.\') + dec_text(self.patch as nat);\n        proof { reveal_strlit("."); reveal_strlit("-"); reveal_strlit("+"); reveal_strlit(""); assert("."@ =~= ch1(\'.\')); assert("-"@ =~= ch1(\'-\')); assert("+"@ =~= ch1(\'+\')); assert(""@ =~= Seq::<char>::empty()); }'
+VERSION_FMT_LOOPS = [
+    "$I == $IT.index@, self.pre_release@.len() <= usize::MAX, fmt_out(*f) == out0 + core + ids_text(self.pre_release@, $I as int, '-'), \".\"@ == ch1('.'), \"-\"@ == ch1('-'), \"+\"@ == ch1('+'), \"\"@ == Seq::<char>::empty(),",
+    "$I == $IT.index@, self.build@.len() <= usize::MAX, fmt_out(*f) == out0 + core + ids_text(self.pre_release@, self.pre_release@.len() as int, '-') + ids_text(self.build@, $I as int, '+'), \".\"@ == ch1('.'), \"-\"@ == ch1('-'), \"+\"@ == ch1('+'), \"\"@ == Seq::<char>::empty(),",
+]
